@@ -115,6 +115,12 @@ fn run_once(sc: &Value, decider: Decider, id: &Value) -> RunOut {
         }
         ntop += 1;
         let (act, comp) = c.split_once(' ').unwrap();
+        // C13 bookkeeping: the whole step (and the decision that chose it) belongs to one subscription
+        let owner = env.owner_of_name(comp);
+        env.set_owner(owner);
+        if let Some(l) = env.lock().script_own.last_mut() {
+            *l = owner;
+        }
         env.event("top", comp, act, json!(0));
         let r = catch_unwind(AssertUnwindSafe(|| {
             perform(&g, act, comp);
@@ -130,7 +136,7 @@ fn run_once(sc: &Value, decider: Decider, id: &Value) -> RunOut {
     let diverged = env.diverged();
     let trail = env.dfs_trail();
     let gd = env.lock();
-    let rec = json!({
+    let mut rec = json!({
         "id": id,
         "fam": sc["fam"],
         "cfg": sc["cfg"],
@@ -139,7 +145,73 @@ fn run_once(sc: &Value, decider: Decider, id: &Value) -> RunOut {
         "diverged": diverged,
         "depth": gd.max_depth,
     });
+    let twosub = sc["twosub"].as_bool().unwrap_or(false);
+    let nsinks = gd.sinks.len();
+    let mut solos = vec![];
+    if twosub {
+        // projection of the run onto each subscription, with the names the components would have had
+        // if that subscription were the only one
+        let nm = |s: &str, o: usize| -> String {
+            if s.starts_with('K') {
+                return "K1".to_string();
+            }
+            let _ = o;
+            gd.norm.get(s).cloned().unwrap_or_else(|| s.to_string())
+        };
+        let mut projs = vec![];
+        for o in 1..=nsinks {
+            let mut p = vec![];
+            for (e, eo) in gd.obs.iter().zip(gd.obs_own.iter()) {
+                if *eo == o {
+                    let mut e2 = e.clone();
+                    let fr = nm(e["fr"].as_str().unwrap_or(""), o);
+                    let to = nm(e["to"].as_str().unwrap_or(""), o);
+                    e2["fr"] = json!(fr);
+                    e2["to"] = json!(to);
+                    // the error object a probe sink disposes with is tagged 800 + its own number
+                    if e["t"] == "E" && e["v"].as_i64().map(|v| (801..900).contains(&v)).unwrap_or(false) {
+                        e2["v"] = json!(801);
+                    }
+                    p.push(e2);
+                }
+            }
+            projs.push(Value::Array(p));
+            let mut sp = vec![];
+            for (e, eo) in gd.script.iter().zip(gd.script_own.iter()) {
+                if *eo == o {
+                    sp.push((
+                        e[0].as_str().unwrap_or("").to_string(),
+                        nm(e[1].as_str().unwrap_or(""), o),
+                        e[2].as_str().unwrap_or("").to_string(),
+                    ));
+                }
+            }
+            solos.push(sp);
+        }
+        rec["proj"] = Value::Array(projs);
+    }
     drop(gd);
+    if twosub {
+        // the same subscription alone: one probe sink, the projected script
+        let mut sc1 = sc.clone();
+        sc1["twosub"] = json!(false);
+        sc1["cfg"]["sinks"] = json!(["probe"]);
+        let mut so = vec![];
+        let mut sdiv = vec![];
+        for sp in solos {
+            let want: Vec<Value> = sp.iter().map(|(a, b, c)| json!([a, b, c])).collect();
+            let r = run_once(&sc1, Decider::Replay { script: sp, pos: 0, diverged: false }, &json!("solo"));
+            // did the solo run follow the whole projected script?
+            let got = r.rec["script"].as_array().cloned().unwrap_or_default();
+            let followed = got.len() >= want.len() && got[..want.len()] == want[..];
+            sdiv.push(json!(!followed));
+            so.push(r.rec["obs"].clone());
+        }
+        rec["solo"] = Value::Array(so);
+        rec["solo_short"] = Value::Array(sdiv);
+    }
+    drop(g);
+    env.cleanup();
     RunOut { rec, trail }
 }
 
